@@ -135,6 +135,18 @@ def _is_defined_before(cast_op: Operation, user: Operation) -> bool:
     return block.get_operation_index(cast_op) < block.get_operation_index(anc)
 
 
+def _may_share_cast(operand: SSAValue, cast_op: memref.MemorySpaceCastOp) -> bool:
+    """
+    One L1 copy of a buffer can stand in for the buffer for all accelerator ops only if
+    nothing else accesses the buffer: any other user (another cast, a subview, a copy, ...)
+    sees, or produces, data that the shared copy does not have at that moment.
+    """
+    shared_users = (linalg.GenericOp, dart.OperationOp, func.ReturnOp)
+    return all(use.operation is cast_op or isinstance(use.operation, shared_users) for use in operand.uses) and all(
+        isinstance(use.operation, shared_users) for use in cast_op.dest.uses
+    )
+
+
 class InitStreamAndLinalgMemorySpace(RewritePattern):
     """
     Convert all linalg.generics and stream.streaming region ops to only use L1
@@ -160,6 +172,7 @@ class InitStreamAndLinalgMemorySpace(RewritePattern):
                     and isinstance(use_type := use.operation.dest.type, builtin.MemRefType)
                     and use_type.memory_space == L1.attribute
                     and _is_defined_before(use.operation, op)
+                    and _may_share_cast(operand, use.operation)
                 ):
                     cast_op = use.operation
                     break
